@@ -173,10 +173,10 @@ def gen_cat_spec(seed):
         for rs in restarts:
             rs['its'].pop(0, None)
     spec['active_link'] = bool(rng.random() < 0.4)
-    name = HOSTILE[int(rng.integers(len(HOSTILE)))]
+    name = HOSTILE[int(seed) % len(HOSTILE)]          # every name gets its turn
     spec['simname'] = name
     spec['name_class'] = name
-    spec['dir_class'] = HOSTILE[int(rng.integers(len(HOSTILE)))] if rng.random() < 0.5 else 'plain'
+    spec['dir_class'] = HOSTILE[(int(seed) // 3) % len(HOSTILE)] if rng.random() < 0.5 else 'plain'
     return spec
 
 
